@@ -42,6 +42,7 @@ ASSUMPTIONS = [
 # one of them is parsed - and its ValueError swallowed - before every conforming string: the meaning of a conforming
 # string does not depend on what was refused before it
 REFUSED = ["M 0 0 L 10 z", "M0,0 h z", "M0,0 a 5 5 0 z", "M1,1 L", "M 1 2 3", "M0,0 q1,1 z 5", "x", "M0,0 L1,1 t", "M0,0 A1,1 0 2 0 1,1"]
+CONTINUED = ["M10,10 L20,20", "M-3,4 Q1,1 5,-2", "M1,2 C3,4 5,6 7,1 z"]
 
 
 def run_string(svg, d, out, tags=None, expect_ok=True):
@@ -54,6 +55,13 @@ def run_string(svg, d, out, tags=None, expect_ok=True):
         svg.Path(REFUSED[len(d) % len(REFUSED)])
     except Exception:  # noqa
         pass
+    # ... nor on the same text having been read before as the CONTINUATION of another path (where a leading relative
+    # move, a smooth command or a close means something else)
+    if d[:1] == "m" or len(d) % 3 == 0:
+        try:
+            svg.Path(CONTINUED[len(d) % len(CONTINUED)]).parse(d)
+        except Exception:  # noqa
+            pass
     try:
         p = svg.Path(d)
     except Exception as e:  # noqa
